@@ -6,7 +6,8 @@
                         panic) the pieces ALREADY delivered — the part of the failing block that
                         io::copy had copied included — have been appended: `linear_extract_d`
                         returns them together with how the walk ended.
-   selected-files form  per sorted name the matcher selects: get_file (error / None: next name),
+   selected-files form  per sorted name the matcher selects: get_file (error / None: next name; a panic
+                        below it unwinds and ends the command),
                         create_file (`?` on error; None: next name, the ArchiveFile is dropped
                         unread), io::copy into the handle create_file returned (`?` on error, what
                         was copied before stays).  `sel` stands for the matcher: a list of names
@@ -94,9 +95,47 @@ Section Delivered.
         | (f1, Skipped) => extract_listed_loop zf fuel r1 rest out f1
         | (f1, Failed) => (f1, false)
         end
-      | (r1, _) => extract_listed_loop zf fuel r1 rest out f
+      | (_, Crash _) => (f, false)                          (* a panic below get_file unwinds: exit 101 *)
+      | (r1, _) => extract_listed_loop zf fuel r1 rest out f   (* Err / Ok(None): message, `continue` *)
       end
     end.
+
+  (* "no copy the model makes along that loop ends with out-of-fuel" (EFuel: the copy loop's `fuel` turns, or
+     `zf` of a read's skipping of empty blocks, were too few for the file — the source has no such bound).
+     The premise under which Tie A (SrcTie3Cli.extract_selected_sim) states model = source for this loop;
+     follows extract_listed_loop step by step. *)
+  Fixpoint copies_fuelled (zf fuel : nat) (r : rstate S) (names : list bytes) (out : path) (f : fs) : bool :=
+    match names with
+    | [] => true
+    | n :: rest =>
+      match get_file r n with
+      | (r1, Ok (Some (bs, _))) =>
+        match create_file out n f with
+        | (f1, Created _ cp) =>
+          match io_copy zf fuel bs [] with
+          | (bs', d, Ok _) => copies_fuelled zf fuel (after_copy r1 bs') rest out (write_at f1 cp d)
+          | (_, _, Err EFuel) => false
+          | _ => true
+          end
+        | (f1, Skipped) => copies_fuelled zf fuel r1 rest out f1
+        | (f1, Failed) => true
+        end
+      | (_, Crash _) => true
+      | (r1, _) => copies_fuelled zf fuel r1 rest out f
+      end
+    end.
+
+  (* the whole-archive form on an opened reader: the pre-pass (create_file for every sorted name) decides the
+     keys of `export` — Cli.accepted_names: a name create_file skipped has no FileWriter, so a FileStart that
+     carries it does not bind its id — then linear_extract walks the archive with THOSE keys and the pieces go
+     through the pool.  Exit status 0 iff the pre-pass, every re-open and the walk succeeded.  (When the
+     pre-pass fails the walk is not run at all; extract_linear_pool then ignores the pieces and `b` is false.) *)
+  Definition extract_linear_body (cap : nat) (cut : bytes -> list bytes) (lfuel : nat)
+             (r : rstate S) (out : path) (f : fs) : fs * bool :=
+    let names := sort_names (list_files S r) in
+    let dl := linear_extract_d lfuel r (accepted_names out names f) in
+    let '(f', b) := extract_linear_pool RAppend cap cut out names (fst dl) f in
+    (f', b && is_ok (snd dl)).
 End Delivered.
 
 Section CliExtract.
@@ -118,11 +157,7 @@ Section CliExtract.
   Definition cmd_extract_linear_pool (cap : nat) (cut : bytes -> list bytes) (lfuel : nat)
              (a : bytes) (privs : list bytes) (out : path) (f : fs) : fs * bool :=
     match cli_open a privs with
-    | Ok (existT _ p r) =>
-      let names := sort_names (list_files (stack_of a p) r) in
-      let dl := linear_extract_d FNMAX TS TC TA TE (stack_of a p) lfuel r names in
-      let '(f', b) := extract_linear_pool RAppend cap cut out names (fst dl) f in
-      (f', b && is_ok (snd dl))
+    | Ok (existT _ p r) => extract_linear_body FNMAX TS TC TA TE (stack_of a p) cap cut lfuel r out f
     | _ => (f, false)
     end.
 
